@@ -3,6 +3,7 @@ package main
 import (
 	"fmt"
 	"go/ast"
+	"go/token"
 	"strings"
 )
 
@@ -229,8 +230,42 @@ func extractGrpcBroker(p *pkgs, f *facts) {
 	} else {
 		f.miss = append(f.miss, "GRPCBroker.DialWithOptions")
 	}
-	f.lean = append(f.lean, fmt.Sprintf("def grpcDial : GrpcBroker.DialParams := ⟨%s, %s⟩", leanBool(optsFresh), leanBool(waitsUnlocked)))
-	f.set("grpcDial", map[string]interface{}{"optsFresh": optsFresh, "waitsUnlocked": waitsUnlocked})
+	// `clientStreams` (where a side files / awaits the connection info for the IDs it DIALS) is referred to only by the
+	// constructor, getClientStream and timeoutWait: in particular nothing on the accept path reads or clears it
+	acceptLeaves, refs := true, 0
+	for _, file := range p.files {
+		for _, d := range file.Decls {
+			fd, ok := d.(*ast.FuncDecl)
+			if !ok || fd.Body == nil {
+				continue
+			}
+			ast.Inspect(fd.Body, func(n ast.Node) bool {
+				if se, ok := n.(*ast.SelectorExpr); ok && se.Sel.Name == "clientStreams" {
+					refs++
+					switch fd.Name.Name {
+					case "newGRPCBroker", "getClientStream", "timeoutWait":
+					default:
+						acceptLeaves = false
+					}
+				}
+				if kv, ok := n.(*ast.KeyValueExpr); ok && exprString(kv.Key) == "clientStreams" {
+					refs++
+					if fd.Name.Name != "newGRPCBroker" {
+						acceptLeaves = false
+					}
+				}
+				return true
+			})
+		}
+	}
+	acceptLeaves = acceptLeaves && refs > 0
+	// dialGRPCConn: some option appended is exactly grpc.FailOnNonTempDialError(true)
+	failsFast := false
+	if dg := p.fn("", "dialGRPCConn"); dg != nil {
+		failsFast = strings.Contains(nodeCalls(dg.Body), "grpc.FailOnNonTempDialError(true)")
+	}
+	f.lean = append(f.lean, fmt.Sprintf("def grpcDial : GrpcBroker.DialParams := ⟨%s, %s, %s, %s⟩", leanBool(optsFresh), leanBool(waitsUnlocked), leanBool(acceptLeaves), leanBool(failsFast)))
+	f.set("grpcDial", map[string]interface{}{"optsFresh": optsFresh, "waitsUnlocked": waitsUnlocked, "acceptLeavesDialState": acceptLeaves, "dialFailsFast": failsFast})
 	// GRPCServerMuxer.Accept: the hand-off `acceptCh <- acceptResult{…}` is a plain send statement (not a select arm)
 	handoffBlocks := false
 	if acc := p.fn("GRPCServerMuxer", "Accept"); acc != nil {
@@ -269,6 +304,19 @@ func extractGrpcBroker(p *pkgs, f *facts) {
 				if len(si.timers) > 0 {
 					knockWait = si.timers[0]
 				}
+			}
+			// "its dialler is still waiting" means the WHOLE window: the wait for the ack is the only select of `knock`, it has
+			// exactly two arms (the ack, the timer; no default, no arm that ends the wait early), and nothing else in `knock`
+			// receives from a channel (an ack taken out of the slot anywhere else is an ack the wait never sees)
+			recvs := 0
+			ast.Inspect(kn.Body, func(n ast.Node) bool {
+				if ue, ok := n.(*ast.UnaryExpr); ok && ue.Op == token.ARROW {
+					recvs++
+				}
+				return true
+			})
+			if len(ks) != 1 || len(ks[0].stmt.Body.List) != 2 || recvs != 2 {
+				knockWait = -1
 			}
 		}
 		ast.Inspect(run.Body, func(n ast.Node) bool {
